@@ -17,7 +17,8 @@ RULE = (
     "Cases: data class in {daily, billing, hourly} x {baseline, reporting} x electric/gas x span 250-420 days (aimed at 328/329/"
     "330 and 364/365/366, also with a single DST change inside) x missing usage days and missing temperature days/hours with "
     "threshold-hugging counts (overall 10%: floor(0.1 n) - 1 .. + 1; one calendar month: 2/3/4 days; hourly: hours) x negative "
-    "values x zeros x an extreme value x UTC or local index x frame or from_series entry x daily or hourly temperature feed. "
+    "values x zeros x an extreme value x UTC or local index x frame or from_series entry x daily or hourly temperature feed x daily or "
+    "hourly meter readings (missing usage days keep 0/10/12 of 24 readings, some valid days 20 of 24). "
     "First and last day are valid in the main class. Oracle: the constructor returns and the set of disqualification names "
     "equals the set computed by an independent restatement of the criteria; at a boundary where the statement leaves a "
     "counting detail open (fractional DST days) both verdicts are accepted; the warnings extreme_values_detected, utc_index and "
@@ -58,6 +59,11 @@ def daily_cases(draw, klass=None):
     c["negative"] = draw(st.booleans())
     c["zeros"] = draw(st.sampled_from([0, 0, 2, 40]))
     c["extreme"] = draw(st.booleans())
+    # the daily class also takes sub-daily meter readings: a missing usage day then keeps 0, 10 or 12 of its 24 readings (half or
+    # fewer: missing, reported by the missing_high_frequency_meter_data *warning*), some valid days keep 20 of 24
+    c["meter_feed"] = draw(st.sampled_from(["daily", "daily", "hourly"])) if (c["klass"] == "daily" and c["feed"] == "hourly") else "daily"
+    c["meter_kept"] = draw(st.sampled_from([0, 10, 12]))
+    c["meter_valid_partial"] = draw(st.sampled_from([0, 3]))
     if c["klass"] == "billing":
         c["feed"] = "daily"
         c["entry"] = "frame"
@@ -213,7 +219,7 @@ def judge_daily(c, rec):
     Base = {"daily": (em.DailyBaselineData, em.DailyReportingData), "billing": (em.BillingBaselineData, em.BillingReportingData)}[klass][0 if c["baseline"] else 1]
     tz = c["tz"]
     K = "%s/%s" % (klass, "baseline" if c["baseline"] else "reporting")
-    cls = ["class=" + K, "entry=" + c["entry"], "feed=" + c["feed"], "electric=%d" % c["electric"]]
+    cls = ["class=" + K, "entry=" + c["entry"], "feed=" + c["feed"], "electric=%d" % c["electric"], "meter_feed=" + c.get("meter_feed", "daily")]
     meter = pd.Series(obs_in, index=idx, name="observed")
     if klass == "billing":
         starts, per, lengths = c["_reads"]
@@ -230,6 +236,19 @@ def judge_daily(c, rec):
             rows = np.nonzero(day_of == i)[0]
             hv[rows[: c["partial_hours"]]] = np.nan
         temp = pd.Series(hv, index=hidx, name="temperature")
+        if c.get("meter_feed") == "hourly":
+            counts = np.bincount(np.clip(day_of, 0, len(idx) - 1), minlength=len(idx)).astype(float)
+            mv = (np.asarray(obs_in) / counts)[np.clip(day_of, 0, len(idx) - 1)].copy()
+            rngm = np.random.default_rng(c["vseed"] + 99)
+            for i in np.nonzero(np.isnan(obs_in))[0]:
+                rows = np.nonzero(day_of == i)[0]
+                if c["meter_kept"]:
+                    mv[rows[: c["meter_kept"]]] = 1.5  # some readings survive, half or fewer of the day
+            ok_days = [i for i in range(1, len(idx) - 1) if not np.isnan(obs_in[i])]
+            for i in rngm.choice(ok_days, min(c["meter_valid_partial"], len(ok_days)), replace=False):
+                rows = np.nonzero(day_of == i)[0]
+                mv[rows[-4:]] = np.nan  # 20 of 24 present: scaled by 1/coverage, the day total is unchanged
+            meter = pd.Series(mv, index=hidx, name="observed")
     try:
         with contextlib.redirect_stdout(io.StringIO()):
             if c["entry"] == "frame":
@@ -277,7 +296,8 @@ def judge_daily(c, rec):
                 if want != (P + "extreme_values_detected" in wn):
                     rec.violation(K + "/warning/extreme_values_detected", c, "present=%s, some value above median+3*IQR=%s" % (P + "extreme_values_detected" in wn, want))
     # warnings never carry the verdict
-    dq_only_warnings = got & {"eemeter.data_quality.utc_index", P + "extreme_values_detected", P + "unable_to_confirm_daily_temperature_sufficiency"}
+    dq_only_warnings = got & {"eemeter.data_quality.utc_index", P + "extreme_values_detected", P + "unable_to_confirm_daily_temperature_sufficiency",
+                              P + "missing_high_frequency_meter_data", P + "missing_high_frequency_temperature_data"}
     if dq_only_warnings:
         rec.violation(K + "/warning-as-disqualification", c, str(sorted(dq_only_warnings)))
     n = c["n"]
